@@ -72,7 +72,11 @@ enum Edit {
     RejectedOnBreakpointLine,
 }
 
-const PROBES: [&str; 8] = ["CONT", "RETURN", "NEXT I", "READ Z: PRINT Z", "PRINT FNA(1)", "GOTO 10", "PRINT X;S$;A(1)", "LIST"];
+const PROBES: [&str; 9] = ["CONT", "RETURN", "NEXT I", "READ Z: PRINT Z", "PRINT FNA(1)", "GOTO 10", "PRINT X;S$;A(1)", "LIST", "NEXT K"];
+
+/// Typed at the suspension point before the edit: a loop opened in immediate mode is a
+/// runtime reference like any other.
+const PRE_EDIT: &str = "FOR K=1 TO 3";
 
 /// Runs the program up to turn boundary `k` and suspends there. Returns None if the run has
 /// fewer boundaries. The history (host calls) is returned for replay files.
@@ -120,6 +124,9 @@ fn suspend_at(p: &Prog, k: usize) -> Option<(Sess, Vec<Ev>, Option<u64>)> {
         let _ = s.apply(&Ev::Break);
         hist.push(Ev::Break);
     }
+    let e = Ev::Line(PRE_EDIT.to_string());
+    let _ = s.apply(&e);
+    hist.push(e);
     let bp = s.it.verif_snapshot().breakpoint.map(|b| b.0);
     s.recs.clear();
     Some((s, hist, bp))
@@ -261,6 +268,7 @@ pub fn run(thorough: bool) -> Report {
                         "CONT" => (!expect_err("CannotContinue")).then(|| "CONT did not report CAN'T CONTINUE".to_string()),
                         "RETURN" => (!expect_err("ReturnWithoutGosub")).then(|| "RETURN did not report RETURN WITHOUT GOSUB".to_string()),
                         "NEXT I" => (!expect_err("NextWithoutFor")).then(|| "NEXT did not report NEXT WITHOUT FOR".to_string()),
+                        "NEXT K" => (!expect_err("NextWithoutFor")).then(|| "NEXT of a loop opened in immediate mode did not report NEXT WITHOUT FOR".to_string()),
                         "PRINT FNA(1)" => (got != vec!["Print(\"0\\n\")".to_string(), "Idle".to_string()]).then(|| "a previously defined function is still callable".to_string()),
                         "READ Z: PRINT Z" => {
                             let has_data = p.data_line.is_some() && !matches!(e, Edit::DeleteDataLine);
